@@ -73,7 +73,11 @@ def gen_case(rng):
             cmds.append({"op": "Dgate", "p": [float(rng.uniform(0.1, 0.5)), {"par": int(rng.integers(nparams))}], "m": [last]})
     if len(N) > 1 and rng.random() < 0.6:
         cmds.append({"op": "BSgate", "p": [float(rng.uniform(0.2, 1.0)), 0.0], "m": [starts[0] + N[0] - 1, starts[1] + N[1] - 1]})
-    for b, n in enumerate(N):
+    # (the measurements of the bands are written in any order, not only first band first)
+    border = list(range(len(N)))
+    if len(N) > 1 and rng.random() < 0.5:
+        border = border[::-1]
+    for b in border:
         cmds.append({"op": "MeasureHomodyne", "p": [{"par": int(rng.integers(nparams))} if rng.random() < 0.6 else float(rng.choice([0.0, np.pi / 2]))],
                      "m": [starts[b]]})
     return {"N": N, "arrays": arrs, "cmds": cmds, "shots": int(rng.choice([1, 1, 2, 3])),
